@@ -1,0 +1,49 @@
+//go:build verif
+
+package mat
+
+// Contracts for the deductive checks in /verif (comment-only; compiled only with -tags verif).
+// Postconditions are taken from property C17: "4x4 matrix addition is entry-wise and
+// multiplication row-by-column, with the identity and inverse laws".
+
+//@ func Identity
+//@   props C17
+//@   returns r
+//@   ensures diag: r.X00 == 1 && r.X11 == 1 && r.X22 == 1 && r.X33 == 1
+//@   ensures offdiag: r.X01 == 0 && r.X02 == 0 && r.X03 == 0 && r.X10 == 0 && r.X12 == 0 && r.X13 == 0 &&
+//@           r.X20 == 0 && r.X21 == 0 && r.X23 == 0 && r.X30 == 0 && r.X31 == 0 && r.X32 == 0
+
+//@ func Matrix4x4.Add
+//@   props C17
+//@   returns r
+//@   ensures entrywise_row0: r.X00 == a.X00 + b.X00 && r.X01 == a.X01 + b.X01 && r.X02 == a.X02 + b.X02 && r.X03 == a.X03 + b.X03
+//@   ensures entrywise_row1: r.X10 == a.X10 + b.X10 && r.X11 == a.X11 + b.X11 && r.X12 == a.X12 + b.X12 && r.X13 == a.X13 + b.X13
+//@   ensures entrywise_row2: r.X20 == a.X20 + b.X20 && r.X21 == a.X21 + b.X21 && r.X22 == a.X22 + b.X22 && r.X23 == a.X23 + b.X23
+//@   ensures entrywise_row3: r.X30 == a.X30 + b.X30 && r.X31 == a.X31 + b.X31 && r.X32 == a.X32 + b.X32 && r.X33 == a.X33 + b.X33
+
+//@ func Matrix4x4.Multiply
+//@   props C17
+//@   returns r
+//@   ensures row0: r.X00 == a.X00*b.X00 + a.X01*b.X10 + a.X02*b.X20 + a.X03*b.X30 &&
+//@                 r.X01 == a.X00*b.X01 + a.X01*b.X11 + a.X02*b.X21 + a.X03*b.X31 &&
+//@                 r.X02 == a.X00*b.X02 + a.X01*b.X12 + a.X02*b.X22 + a.X03*b.X32 &&
+//@                 r.X03 == a.X00*b.X03 + a.X01*b.X13 + a.X02*b.X23 + a.X03*b.X33
+//@   ensures row1: r.X10 == a.X10*b.X00 + a.X11*b.X10 + a.X12*b.X20 + a.X13*b.X30 &&
+//@                 r.X11 == a.X10*b.X01 + a.X11*b.X11 + a.X12*b.X21 + a.X13*b.X31 &&
+//@                 r.X12 == a.X10*b.X02 + a.X11*b.X12 + a.X12*b.X22 + a.X13*b.X32 &&
+//@                 r.X13 == a.X10*b.X03 + a.X11*b.X13 + a.X12*b.X23 + a.X13*b.X33
+//@   ensures row2: r.X20 == a.X20*b.X00 + a.X21*b.X10 + a.X22*b.X20 + a.X23*b.X30 &&
+//@                 r.X21 == a.X20*b.X01 + a.X21*b.X11 + a.X22*b.X21 + a.X23*b.X31 &&
+//@                 r.X22 == a.X20*b.X02 + a.X21*b.X12 + a.X22*b.X22 + a.X23*b.X32 &&
+//@                 r.X23 == a.X20*b.X03 + a.X21*b.X13 + a.X22*b.X23 + a.X23*b.X33
+//@   ensures row3: r.X30 == a.X30*b.X00 + a.X31*b.X10 + a.X32*b.X20 + a.X33*b.X30 &&
+//@                 r.X31 == a.X30*b.X01 + a.X31*b.X11 + a.X32*b.X21 + a.X33*b.X31 &&
+//@                 r.X32 == a.X30*b.X02 + a.X31*b.X12 + a.X32*b.X22 + a.X33*b.X32 &&
+//@                 r.X33 == a.X30*b.X03 + a.X31*b.X13 + a.X32*b.X23 + a.X33*b.X33
+
+//@ func Matrix4x4.MulPosition
+//@   props C17
+//@   returns r
+//@   ensures affine: r.X() == a.X00*b.X() + a.X01*b.Y() + a.X02*b.Z() + a.X03 &&
+//@                   r.Y() == a.X10*b.X() + a.X11*b.Y() + a.X12*b.Z() + a.X13 &&
+//@                   r.Z() == a.X20*b.X() + a.X21*b.Y() + a.X22*b.Z() + a.X23
